@@ -9,6 +9,7 @@ import Smpl.Drv.Alloc
 import Smpl.Drv.Stream
 import Smpl.Drv.Transcode
 import Smpl.Drv.Wav
+import Smpl.Drv.Cue
 open Smpl.Drv
 
 def dispatch (line : String) : String :=
@@ -19,6 +20,7 @@ def dispatch (line : String) : String :=
   | "stream" :: rest => streamOp rest
   | "trans" :: rest => transOp rest
   | "wav" :: rest => wavOp rest
+  | "cue" :: rest => cueOp rest
   | _ => "bad-op"
 
 partial def loop (hin hout : IO.FS.Stream) : IO Unit := do
